@@ -18,7 +18,8 @@ TOL = 1e-9
 RULE = ("cases = zoo crystal x supercell (diag/non-diag) x primitive matrix x range regime (short: cutoff < 0.49 L_min, any q; "
         "long: cutoff up to 1.6 L_min, commensurate q only) x full/compact x dense/sparse svecs x {C, Py, run_qpoints}; "
         "non-trivial = max|D|>0, >=2 neighbour shells inside the range (long regime: range really exceeds L_min/2); "
-        "distinct = (crystal, order, smat, pmat, regime, layout, svecs)")
+        "distinct = (crystal, order, smat, pmat, regime, layout, svecs); "
+        "additions of rounds 6-8: q-points and force constants in several containers / memory layouts (incl. integer-typed whole numbers); unit factor of the object; primitive cell listed in another atom order (positions_to_reorder); the other layout assigned to the same object and back; requests of 4097-8195 q-points; thread counts 1-16")
 ASSUMPTIONS = [
     "primitive cell (positions, masses, order) taken from the Phonopy object; its tiling is checked by the C04 contract in the same run",
     "pair model tapered to zero at the cutoff so membership of a pair exactly at the cutoff is immaterial",
